@@ -79,9 +79,10 @@ type tcase struct {
 	PingPong    int    `json:"pingpong"`
 	CSize       int    `json:"csize"`
 	TSize       int    `json:"tsize"`
-	Closer      string `json:"closer"`     // client | target
-	CloseMode   string `json:"close_mode"` // full | half
-	CloseAt     string `json:"close_at"`   // before | during | after
+	Closer      string `json:"closer"`               // client | target
+	CloseMode   string `json:"close_mode"`           // full | half | linger0 (abortive: SO_LINGER 0) | unread (close with unread input => reset)
+	StopAfter   int    `json:"stop_after,omitempty"` // unread: the closer stops reading after this many stream bytes
+	CloseAt     string `json:"close_at"`             // before | during | after
 	PipeCap     int    `json:"pipe_cap"`
 	Seg         string `json:"seg"`   // proxy-side read segmentation: none | small | mixed
 	Chunk       string `json:"chunk"` // write profile: tiny | small | mixed | large
@@ -208,6 +209,41 @@ func gen(r *vh.Run, stream string, g int, transport string, race bool) tcase {
 	return c
 }
 
+// genAbort draws an abortive-close case (loopback TCP only): one end resets the
+// connection - SO_LINGER 0, or a plain close while input is still unread -
+// while the other end has finished sending and sits idle waiting.
+func genAbort(r *vh.Run, stream string, g int, race bool) tcase {
+	rng := r.Rng(stream, g)
+	c := tcase{Kind: "tunnel", Stream: stream, Idx: g, Transport: "tcp", Race: race, CloseAt: "after", Split: "one", Seg: "none", PipeCap: 65536}
+	c.Route = []string{"direct", "downstream"}[g%2]
+	c.Closer = []string{"target", "client"}[(g/2)%2]
+	c.CloseMode = []string{"unread", "linger0"}[(g/4)%2]
+	c.Chunk = []string{"small", "mixed", "large"}[rng.Intn(3)]
+	c.DSHead = "HTTP/1.1 200 Connection established\r\n\r\n"
+	if rng.Intn(3) == 0 {
+		c.Early = 1 + rng.Intn(2000)
+	}
+	a, b := &c.TSize, &c.CSize // a: the closer's stream, b: the idle peer's
+	if c.Closer == "client" {
+		a, b = &c.CSize, &c.TSize
+	}
+	if c.CloseMode == "linger0" {
+		*a, *b = rng.Intn(60000), rng.Intn(60000)
+		c.PingPong = rng.Intn(3)
+		if rng.Intn(3) == 0 {
+			c.TargetFirst = 1 + rng.Intn(2000)
+		}
+	} else {
+		c.StopAfter = rng.Intn(2000)
+		if c.Closer == "target" {
+			c.StopAfter += c.Early // early data is part of the stream the target stops reading
+		}
+		*a = 1 + rng.Intn(2000) // the closer's answer
+		*b = c.StopAfter + 8192 + rng.Intn(20000)
+	}
+	return c
+}
+
 // ---------------------------------------------------------------------------
 // endpoints
 
@@ -235,6 +271,8 @@ type end struct {
 	werr     atomic.Value
 	mis      atomic.Value // *mismatch
 	sendDone int32
+	stopAt   int64 // >0: the reader stops (without closing) once this many stream bytes were read
+	paused   int32 // reader stopped at stopAt
 	events   *int64
 	closeMu  sync.Mutex
 	closed   bool
@@ -318,6 +356,9 @@ func decodeStamp(b []byte) (id uint32, blk uint64) {
 // classify says what kind of divergence starts at position p of got, which was
 // expected to be stream offset off of stream id.
 func classify(got []byte, p int, off int64, id uint32) string {
+	if i := bytes.Index(got[p:], []byte("HTTP/1.")); i >= 0 && i < 8 {
+		return "bytes of another exchange (an HTTP response head: cross-talk between tunnels)"
+	}
 	// find the next full 8-byte block in got whose id field is a known id
 	for s := p; s+8 <= len(got) && s < p+24; s++ {
 		gid, blk := decodeStamp(got[s : s+8])
@@ -331,7 +372,7 @@ func classify(got []byte, p int, off int64, id uint32) string {
 				return fmt.Sprintf("duplication/reordering (bytes of offset %d seen at %d)", src, want)
 			}
 		} else if gid>>16 == 0xC0 || gid>>16 == 0x70 {
-			return fmt.Sprintf("foreign stream %#x", gid)
+			return fmt.Sprintf("bytes of foreign stream %#x (cross-talk between tunnels)", gid)
 		}
 	}
 	return "corruption"
@@ -361,6 +402,18 @@ func (e *end) recvLoop(maxRead int) {
 		if e.rrng.Intn(4) == 0 {
 			k = 1 + e.rrng.Intn(maxRead)
 		}
+		if e.stopAt > 0 {
+			left := e.stopAt - atomic.LoadInt64(&e.recv)
+			if left <= 0 {
+				finish()
+				atomic.StoreInt32(&e.paused, 1)
+				atomic.AddInt64(e.events, 1)
+				return
+			}
+			if int64(k) > left {
+				k = int(left)
+			}
+		}
 		n, err := e.rd.Read(buf[:k])
 		if n > 0 {
 			off := atomic.LoadInt64(&e.recv)
@@ -369,14 +422,14 @@ func (e *end) recvLoop(maxRead int) {
 				if pend != nil {
 					// collect a few more bytes behind the divergence before classifying it
 					pend = append(pend, buf[:n]...)
-					if len(pend) >= 40 {
+					if len(pend) >= 96 {
 						finish()
 					}
 				} else if !bytes.Equal(buf[:n], exp[:n]) {
 					d := vh.FirstDiff(buf[:n], exp[:n])
 					pendOff = off + int64(d)
 					pend = append([]byte{}, buf[d:n]...)
-					if len(pend) >= 40 {
+					if len(pend) >= 96 {
 						finish()
 					}
 				}
@@ -408,6 +461,14 @@ func (e *end) closeFull() {
 		e.closed = true
 		e.conn.Close()
 	}
+}
+
+// closeAbort closes with SO_LINGER 0: the peer gets a reset, not a FIN.
+func (e *end) closeAbort() {
+	if t, ok := e.conn.(*net.TCPConn); ok {
+		t.SetLinger(0)
+	}
+	e.closeFull()
 }
 
 func (e *end) closeHalf() error {
@@ -568,6 +629,9 @@ func (w *world) serveTarget(conn net.Conn) {
 		wrng: w.r.Rng(c.Stream+"/tw", c.Idx), rrng: w.r.Rng(c.Stream+"/tr", c.Idx), chunk: c.Chunk, events: &w.events}
 	br := bufio.NewReaderSize(conn, 4096)
 	e.rd = br
+	if c.CloseMode == "unread" && c.Closer == "target" {
+		e.stopAt = int64(c.StopAfter) + 1
+	}
 	if c.Route == "downstream" {
 		// act as the downstream proxy first: consume the forwarded CONNECT head
 		h, err := tunx.ReadHead(br)
@@ -748,6 +812,9 @@ func runTunnel(r *vh.Run, c tcase, budget *tunx.Budget) {
 		wrng: r.Rng(c.Stream+"/cw", c.Idx), rrng: r.Rng(c.Stream+"/cr", c.Idx), chunk: c.Chunk, events: &w.events}
 	cbr := bufio.NewReaderSize(cconn, 4096)
 	cl.rd = cbr
+	if c.CloseMode == "unread" && c.Closer == "client" {
+		cl.stopAt = int64(c.StopAfter) + 1
+	}
 	w.client = cl
 
 	var headSeen int32
@@ -957,12 +1024,22 @@ func runTunnel(r *vh.Run, c tcase, budget *tunx.Budget) {
 		}
 		ok1 := w.await("C04:delivery-stalled:"+dirAB+":bulk", fmt.Sprintf("tunnel open and idle, but the receiver has %d of the %d bytes sent (%s)", B.Recv(), A.Sent(), dirAB),
 			func() bool { return B.Recv() >= A.Sent() })
-		ok2 := w.await("C04:delivery-stalled:"+dirBA+":bulk", fmt.Sprintf("tunnel open and idle, but the receiver has %d of the %d bytes sent (%s)", A.Recv(), B.Sent(), dirBA),
-			func() bool { return A.Recv() >= B.Sent() })
+		ok2 := true
+		if c.CloseMode == "unread" {
+			// the closer deliberately stops reading: the rest of the peer's
+			// stream stays unread in its socket, so that its close is a reset
+			ok2 = w.await("C04:delivery-stalled:"+dirBA+":bulk", "tunnel open and idle, but the receiver has not even got the first bytes of the peer's stream",
+				func() bool { return atomic.LoadInt32(&A.paused) == 1 })
+			vh.Settle(w.activity, 3, 20*time.Millisecond, 2*time.Second)
+		} else {
+			ok2 = w.await("C04:delivery-stalled:"+dirBA+":bulk", fmt.Sprintf("tunnel open and idle, but the receiver has %d of the %d bytes sent (%s)", A.Recv(), B.Sent(), dirBA),
+				func() bool { return A.Recv() >= B.Sent() })
+		}
 		if !ok1 || !ok2 {
 			stalled = true
 		}
 	}
+	abortive := c.CloseMode == "linger0" || c.CloseMode == "unread"
 	aFinal := A.Sent()
 	bAtClose := B.Sent()
 	bDoneAtClose := atomic.LoadInt32(&B.sendDone) == 1
@@ -973,20 +1050,28 @@ func runTunnel(r *vh.Run, c tcase, budget *tunx.Budget) {
 	case bDoneAtClose && A.Recv() == bAtClose:
 		timing = "after" // the peer's stream was finished and fully received
 	}
-	if c.CloseMode == "half" {
+	switch c.CloseMode {
+	case "half":
 		if err := A.closeHalf(); err != nil {
 			A.closeFull()
 		}
-	} else {
+	case "linger0":
+		A.closeAbort()
+	default: // full, unread (plain close; with unread input the kernel resets)
 		A.closeFull()
 	}
 	atomic.AddInt64(&w.events, 1)
 
 	// --- phase 5: B must observe end-of-stream after all of A's bytes
 	sigEOF := "C04:eof-propagation:" + c.Closer + "-closes-first"
-	sawEOS := w.await(sigEOF, fmt.Sprintf("%s finished sending and closed (%s close, %s the peer's stream); the other end has not observed end-of-stream at quiescence", c.Closer, c.CloseMode, timing),
+	sigRel := "C04:release:" + c.Closer + "-closes-first"
+	if abortive {
+		sigEOF = "C04:eof-propagation:" + c.Closer + "-aborts"
+		sigRel = "C04:release:" + c.Closer + "-aborts"
+	}
+	sawEOS := w.await(sigEOF, fmt.Sprintf("%s finished sending and closed (%s close, %s the peer's stream); the other end, idle, has not observed end-of-stream (EOF or reset) at quiescence", c.Closer, c.CloseMode, timing),
 		func() bool { return B.Term() != 0 })
-	if sawEOS {
+	if sawEOS && !abortive { // completeness is demanded for orderly closes only
 		if got := B.Recv(); got != aFinal {
 			wit := w.state()
 			r.ViolationCase(c, "C04:bytes-before-eof:"+dirAB, fmt.Sprintf("end-of-stream observed after %d of the %d bytes sent before the close", got, aFinal), wit)
@@ -997,7 +1082,7 @@ func runTunnel(r *vh.Run, c tcase, budget *tunx.Budget) {
 	}
 
 	// --- phase 6: B finishes its own stream and closes
-	if !w.await("C04:release:"+c.Closer+"-closes-first", "after one end closed, the other end's writer is blocked at quiescence: the proxy neither reads nor closes its connection",
+	if !w.await(sigRel, "after one end closed, the other end's writer is blocked at quiescence: the proxy neither reads nor closes its connection",
 		func() bool { return atomic.LoadInt32(&B.sendDone) == 1 }) {
 		return
 	}
@@ -1026,7 +1111,7 @@ func runTunnel(r *vh.Run, c tcase, budget *tunx.Budget) {
 		}
 		return true
 	}
-	relOK := w.await("C04:release:"+c.Closer+"-closes-first", "both ends have closed but the proxy has not released the tunnel at quiescence (handler goroutines / proxy-side connections remain)", released)
+	relOK := w.await(sigRel, "both ends have closed but the proxy has not released the tunnel at quiescence (handler goroutines / proxy-side connections remain)", released)
 
 	// --- phase 8: content
 	if m, _ := cl.mis.Load().(*mismatch); m != nil {
@@ -1038,7 +1123,7 @@ func runTunnel(r *vh.Run, c tcase, budget *tunx.Budget) {
 	if A.Recv() > bFinal || B.Recv() > aFinal {
 		r.ViolationCase(c, "C04:bytes:extra", fmt.Sprintf("an end received more bytes than were sent (A got %d of %d, B got %d of %d)", A.Recv(), bFinal, B.Recv(), aFinal), nil)
 	}
-	if c.CloseAt == "after" && !stalled && A.Recv() != bFinal {
+	if c.CloseAt == "after" && !stalled && c.CloseMode != "unread" && A.Recv() != bFinal {
 		r.ViolationCase(c, "C04:bytes-before-eof:"+dirBA, fmt.Sprintf("closer had received %d of the %d bytes of the finished peer stream", A.Recv(), bFinal), w.state())
 	}
 
@@ -1307,6 +1392,39 @@ func run(r *vh.Run, batch string) {
 			r.Count("cases_slower_than_2s", 1)
 		}
 	}
+	// abortive closes (loopback TCP)
+	na := 0
+	switch kind {
+	case "tcp":
+		na = r.Pick(16, 48)
+	case "race":
+		na = r.Pick(4, 8)
+	}
+	for j := 0; j < na; j++ {
+		c := genAbort(r, "c04-abort-"+kind, k*na+j, race)
+		r.Case(c)
+		runTunnel(r, c, budget)
+	}
+	// concurrent tunnels through one proxy and one downstream proxy
+	ns := 0
+	switch kind {
+	case "pipe":
+		ns = r.Pick(4, 16)
+	case "tcp":
+		ns = r.Pick(4, 12)
+	case "race":
+		ns = r.Pick(4, 8)
+	}
+	for j := 0; j < ns; j++ {
+		g := k*ns + j
+		tr := kind
+		if kind == "race" {
+			tr = []string{"pipe", "tcp"}[j%2]
+		}
+		c := genSwarm(r, "c04-swarm-"+kind, g, tr, race)
+		r.Case(c)
+		runSwarm(r, c, budget)
+	}
 }
 
 func replay(r *vh.Run, raw json.RawMessage) {
@@ -1323,6 +1441,12 @@ func replay(r *vh.Run, raw json.RawMessage) {
 		var c ucase
 		json.Unmarshal(raw, &c)
 		runUnreachable(r, c)
+	case "swarm":
+		var c scase
+		json.Unmarshal(raw, &c)
+		for i := 0; i < 10; i++ { // schedule-dependent: repeat
+			runSwarm(r, c, tunx.NewBudget(1))
+		}
 	default:
 		r.Inconclusive("unknown case kind", nil)
 	}
